@@ -11,6 +11,7 @@ package layers
 
 import (
 	"errors"
+	"fmt"
 
 	"github.com/gopacket/gopacket"
 )
@@ -72,12 +73,20 @@ func (l AGUEVar0) CanDecode() gopacket.LayerClass {
 }
 
 // DecodeFromBytes extracts our header data from a serialized packet.
-func (l *AGUEVar0) DecodeFromBytes(data []byte, _ gopacket.DecodeFeedback) error {
+func (l *AGUEVar0) DecodeFromBytes(data []byte, df gopacket.DecodeFeedback) error {
+	if len(data) < 4 {
+		df.SetTruncated()
+		return fmt.Errorf("AGUEVar0 header too short: %d bytes, need 4", len(data))
+	}
 	l.Version = data[0] >> 6
 	l.C = data[0]&0x20 != 0
 	l.Protocol = IPProtocol(data[1])
 	l.Flags = (uint16(data[2]) << 8) | uint16(data[3])
-	hlen := data[0] & 0x1f
+	hlen := int(data[0] & 0x1f)
+	if len(data) < 4+hlen {
+		df.SetTruncated()
+		return fmt.Errorf("AGUEVar0 extensions truncated: %d bytes, need %d", len(data), 4+hlen)
+	}
 	l.Extensions = data[4 : 4+hlen]
 	l.Data = data[4+hlen:]
 	return nil
@@ -100,7 +109,7 @@ func decodeAGUE(data []byte, p gopacket.PacketBuilder) error {
 		return decodeAGUEVar1(data, p)
 	}
 	l := AGUEVar0{}
-	if err := l.DecodeFromBytes(data, gopacket.NilDecodeFeedback); err != nil {
+	if err := l.DecodeFromBytes(data, p); err != nil {
 		return err
 	}
 	p.AddLayer(l)
